@@ -2108,8 +2108,15 @@ impl<'arena> PrettyFormatter<'arena> {
                 | None => document,
             };
             let first: EntityId = arm.params.map_or_else(|| arm.out.into(), Into::into);
+            // Parameters can wrap, so the break before the output type is measured
+            // from their last line, as for match and comatch arms; only an arm
+            // without parameters still ends its header on the `|` line.
+            let before_out = match arm.params {
+                | Some(params) => BoundaryIntent::between(params, arm.out),
+                | None => BoundaryIntent::after_arm_prefix(arm.out),
+            };
             let document = document.append(self.fragment_boundary(
-                BoundaryIntent::after_arm_prefix(arm.out),
+                before_out,
                 BoundaryLayout::hanging(" :", self.indent()),
                 self.term_fragment(arm.out),
             ));
